@@ -2,10 +2,10 @@ CONSTANTS
   Max = 1
   NPeers = 2
   MaxCatches = 3
-  Closers = {1, 2}
-  AsIs_D8 = TRUE
+  Closers = {1}
+  AsIs_D8 = FALSE
   AsIs_D9 = FALSE
-  Mut_CloseSkipsDeadStream = FALSE
+  Mut_CloseSkipsDeadStream = TRUE
 SPECIFICATION Spec
 INVARIANTS TypeOK Bound NoPanic AllClosedAfterEnd LockOK ChanOK NoStuckEnd
 PROPERTIES PopNeverClosed NoCatchAfterEnd EndReturns
